@@ -45,7 +45,7 @@ func decayState(rate math.LegacyDec, symbolicClock bool, second bool) (*env.Env,
 	mk := func(denom, tag string, tok int64) types.AllianceAsset {
 		a := types.AllianceAsset{Denom: denom, RewardWeight: nd.DecRange("w"+tag, "0.001", "10"), // bound: a zero staked weight makes reward settlement divide by zero (C05/C17 finding)
 			RewardWeightRange: types.RewardWeightRange{Min: nd.DecRange("min"+tag, "0", "10"), Max: nd.DecRange("max"+tag, "0", "10")},
-			TakeRate: math.LegacyZeroDec(), TotalTokens: math.NewInt(tok), TotalValidatorShares: math.LegacyNewDec(tok),
+			TakeRate:          math.LegacyZeroDec(), TotalTokens: math.NewInt(tok), TotalValidatorShares: math.LegacyNewDec(tok),
 			RewardStartTime: t0.Add(-time.Hour), RewardChangeRate: rate, IsInitialized: true}
 		nd.Assume(nd.And(a.RewardWeightRange.Min.LTE(a.RewardWeight), a.RewardWeight.LTE(a.RewardWeightRange.Max)))
 		if symbolicClock {
